@@ -79,7 +79,7 @@ CHECKS = {
             "C14.cloneOnto_eq (zip/extend/truncate for any prior target), borrowAs_roundtrip, intoOwned_eq_index, reborrow_id, "
             "copy_between_regions for both representations, for slices and rows. Element-level into_owned is identified with the "
             "owned value in the model (laws compose structurally); scripts check every catalogue entry incl. option/result/tuple "
-            "variants against prior targets. Props/C14b.lean: clone_onto / into_owned / borrow_as of Option, Result, tuple and slice items arm by arm (ItemLaws, cloneOnto_nested for every nesting) and of Huffman Wrapped items.", "§6 C14"),
+            "variants against prior targets. Props/C14b.lean: clone_onto / into_owned / borrow_as of Option, Result, tuple and slice items arm by arm (ItemLaws, cloneOnto_nested for every nesting) and of Huffman Wrapped items. Props/C14c.lean + Model/ItemOps.lean: the model driver answers owned / cloneonto (and cmp for Huffman compositions) through these item definitions, nested per region type as the Rust impls nest (class ItemOps), so they are diffed against the crate; LawfulItemOps (one inferInstance obligation per catalogued composition, Generated/CoveredItems.lean) and cloneOntoAt_eq_index / intoOwnedAt_eq_index bridge them to Region::index.", "§6 C14"),
     "C15": ("Lean proof (iterator comparison of any two representations equals lexicographic comparison of owned values; order laws) "
             "+ all-pairs correspondence",
             "C15.readSlice_eq / readSlice_cmp: the lazy Iterator::eq/cmp over any two representations equals listEq/lexCmp of the owned "
